@@ -871,6 +871,30 @@ pub fn sql_session_crash(
     after: &[String],
     after_again: &[String],
 ) -> Result<(Vec<Result<Vec<Vec<String>>, String>>, u64, u64), String> {
+    sql_session_crash_ex(
+        target_block_size,
+        before,
+        interrupted,
+        cut,
+        false,
+        after,
+        after_again,
+    )
+}
+
+/// [`sql_session_crash`] with one more crash: when `killed_recovery` is set, a first recovery
+/// dies right after it has read the manifest (`Manifest::open` + `replay`, which cuts a torn
+/// tail off the file) and before it rewrites it; the recoveries that follow start from what it
+/// left behind.
+pub fn sql_session_crash_ex(
+    target_block_size: usize,
+    before: &[String],
+    interrupted: &str,
+    cut: usize,
+    killed_recovery: bool,
+    after: &[String],
+    after_again: &[String],
+) -> Result<(Vec<Result<Vec<Vec<String>>, String>>, u64, u64), String> {
     use crate::Database;
     use crate::array::datachunk_to_sqllogictest_string;
     use crate::storage::SecondaryStorageOptions;
@@ -934,6 +958,17 @@ pub fn sql_session_crash(
                 .open(&manifest)
                 .map_err(|e| e.to_string())?;
             f.set_len(keep).map_err(|e| e.to_string())?;
+        }
+        if killed_recovery {
+            rt.block_on(async {
+                let mut m = super::Manifest::open(&manifest, false)
+                    .await
+                    .map_err(|e| format!("OPEN FAILED: {e}"))?;
+                m.replay()
+                    .await
+                    .map(|_| ())
+                    .map_err(|e| format!("OPEN FAILED: {e}"))
+            })?;
         }
         for group in [after, after_again] {
             match open() {
